@@ -128,20 +128,20 @@ def _run_case(ctx, case):
     exp_nodes, exp_edges = ctab.expected_nodes(work), ctab.expected_edges(work)
     ctx.mon("c08_v2000_vs_model")
     got = ctab.observed_nodes(g2)
-    if list(g2.nodes) != list(range(len(work.atoms))) or got != exp_nodes:
+    if got != exp_nodes:
         k = next((k for k in range(min(len(got), len(exp_nodes))) if got[k] != exp_nodes[k]), None)
         ctx.violation("reader-v2000:model", {"what": "V2000 reader result differs from the molecule the file states", "position": k,
                                               "stated": exp_nodes[k] if k is not None else None, "read": got[k] if k is not None else None, "text": t2[:3000]}, case)
         return
-    if ctab.observed_edges(g2) != exp_edges:
+    if ctab.observed_edges(g2, by_position=True) != exp_edges:
         ctx.violation("reader-v2000:model", {"what": "V2000 bonds differ from the molecule the file states", "text": t2[:3000]}, case)
         return
     ctx.mon("c08_v2000_vs_v3000")
-    same_nodes = dict(g2.nodes(data=True)) == dict(g3.nodes(data=True)) and list(g2.nodes) == list(g3.nodes)
-    same_edges = list(g2.edges(data=True)) == list(g3.edges(data=True))
-    if not (same_nodes and same_edges):
-        diff = [(k, dict(g2.nodes[k]), dict(g3.nodes[k])) for k in g2.nodes if k in g3.nodes and dict(g2.nodes[k]) != dict(g3.nodes[k])][:2]
-        ctx.violation("reader-v2000:vs-v3000", {"what": "V2000 and V3000 renderings of one molecule are read as different graphs", "differing_atoms": repr(diff)[:600],
+    n2, n3 = ctab.observed_nodes(g2), ctab.observed_nodes(g3)
+    e2, e3 = ctab.observed_edges(g2, by_position=True), ctab.observed_edges(g3, by_position=True)
+    if n2 != n3 or e2 != e3:
+        diff = [(k, n2[k], n3[k]) for k in range(min(len(n2), len(n3))) if n2[k] != n3[k]][:2]
+        ctx.violation("reader-v2000:vs-v3000", {"what": "V2000 and V3000 renderings of one molecule are read as different atoms/bonds", "differing_atoms": repr(diff)[:600],
                                                  "v2000": t2[:2500], "v3000": t3[:2500]}, case)
         return
     ctx.mon("c08_string_compare")
